@@ -31,7 +31,7 @@ int main()
     VectorDouble dx(nd), x0(nd);
     for (int i = 0; i < nd; i++)
     {
-      nx[i] = (int)(big ? rng.range(1, nd >= 3 ? 300 : 2000) : rng.range(1, 9));
+      nx[i] = (int)(big ? rng.range(1, nd == 4 ? 60 : (nd == 3 ? 300 : 2000)) : rng.range(1, 9));   // node count stays below 2^31
       dx[i] = rng.dyadic(0, 8, 3) + 0.125;
       x0[i] = rng.dyadic(-100, 100, 2);
     }
